@@ -11,7 +11,7 @@ theorem live_congr {k k' : Kernel} {o : List Fd} (hb : k'.tbl.bindings = k.tbl.b
     (hs : k'.tbl.socks = k.tbl.socks) (hc : k'.tbl.conns = k.tbl.conns) (hn : k'.tbl.nextId = k.tbl.nextId)
     (hf : k'.fixReap = k.fixReap) (h : Live k o) : Live k' o := by
   refine live_step h (by rw [hf]; exact h.fix) (tinv_congr hb hs hn h.tinv) (cinv_congr hc hs hn h.cinv)
-    (extends_refl_of_eq o hb hs) ?_
+    (rinv_congr hs hn h.rinv) (extends_refl_of_eq o hb hs) ?_
   intro s' hs'
   rw [hs] at hs'
   exact Or.inl ⟨hs', fun hx => hx⟩
@@ -23,8 +23,9 @@ theorem fresh_ne (t : Table) (h : TInv t) (s : Sock) (hs : s ∈ t.socks) : s.fd
 theorem live_newBound (k : Kernel) (o : List Fd) (key : BindKey) (mk : Fd → Sock)
     (hmk : ∀ n, (mk n).bound = some key) (hml : ∀ n, (mk n).listen = none) (h : Live k o) :
     Live { k with tbl := (k.tbl.insertWith mk).1.insertBinding key k.tbl.nextId } (k.tbl.nextId :: o) := by
-  refine live_step h h.fix (tinv_bindNew k.tbl key mk hmk h.tinv) ?_ ?_ ?_
+  refine live_step h h.fix (tinv_bindNew k.tbl key mk hmk h.tinv) ?_ ?_ ?_ ?_
   · exact cinv_congr (t := (k.tbl.insertWith mk).1) rfl rfl rfl (cinv_insertWith k.tbl mk h.cinv)
+  · exact rinv_congr (t := (k.tbl.insertWith mk).1) rfl rfl (rinv_insertWith k.tbl mk hml h.rinv)
   · exact extends_trans (extends_insertWith k.tbl mk _) (extends_insertBinding _ key _ _)
   · intro s' hs'
     have hs'' : s' ∈ ({ mk k.tbl.nextId with fd := k.tbl.nextId } : Sock) :: k.tbl.socks := hs'
@@ -39,7 +40,7 @@ theorem live_newUnbound (k : Kernel) (o : List Fd) (mk : Fd → Sock)
     (hmk : ∀ n, (mk n).bound = none) (hml : ∀ n, (mk n).listen = none) (h : Live k o) :
     Live { k with tbl := (k.tbl.insertWith mk).1 } (k.tbl.nextId :: o) := by
   refine live_step h h.fix (tinv_insertWith k.tbl mk hmk h.tinv) (cinv_insertWith k.tbl mk h.cinv)
-    (extends_insertWith k.tbl mk _) ?_
+    (rinv_insertWith k.tbl mk hml h.rinv) (extends_insertWith k.tbl mk _) ?_
   intro s' hs'
   have hs'' : s' ∈ ({ mk k.tbl.nextId with fd := k.tbl.nextId } : Sock) :: k.tbl.socks := hs'
   rcases List.mem_cons.mp hs'' with rfl | hold
@@ -57,7 +58,9 @@ theorem live_bindOwned (k : Kernel) (o : List Fd) (fd : Fd) (key : BindKey) (f :
     (hno : ∀ c ∈ k.tbl.conns, c.2 ≠ fd) (h : Live k o) :
     Live { k with tbl := (k.tbl.insertBinding key fd).modify fd f } o := by
   refine live_step h h.fix (tinv_bindFd k.tbl fd key f hfd hb s0 hs0 hs0fd hs0b h.tinv)
-    (cinv_bindFd k.tbl fd key f hfd hno h.cinv) ?_ ?_
+    (cinv_bindFd k.tbl fd key f hfd hno h.cinv) ?_ ?_ ?_
+  · exact rinv_modify_keep _ fd f hfd (fun s hs => by rw [ht]; exact hs) hl
+      (rinv_congr (t := k.tbl) rfl rfl h.rinv)
   · refine extends_trans (extends_insertBinding k.tbl key fd o) ?_
     refine extends_modify _ fd f o hfd ?_ ?_
     · intro s _ _ hs; rw [hl]; exact hs
@@ -81,7 +84,7 @@ theorem live_insertConn (k : Kernel) (o : List Fd) (l r : Ep) (fd : Fd) (hlt : f
     (hb : ∀ s ∈ k.tbl.socks, s.fd = fd → boundEp s = l) (h : Live k o) :
     Live { k with tbl := k.tbl.insertConn l r fd } o := by
   refine live_step h h.fix (kinv_insertConn _ _ _ _ h.tinv) (cinv_insertConn _ _ _ _ hlt hb h.cinv)
-    (extends_refl_of_eq o rfl rfl) ?_
+    (rinv_congr (t := k.tbl) rfl rfl h.rinv) (extends_refl_of_eq o rfl rfl) ?_
   intro s' hs'
   exact Or.inl ⟨hs', fun hx => hx⟩
 
@@ -121,12 +124,20 @@ theorem live_newChild (k : Kernel) (o : List Fd) (v6 tcp : Bool) (l r : Ep) (f :
       (fun s _ _ hs => by rw [hl]; exact hs)
       (fun s _ _ rd hs => ⟨rd, by rw [hl]; exact hs, fun y hy => Or.inl hy⟩)
     exact extends_trans (extends_trans e1 e2) e3
-  refine live_step h h.fix (kinv_insertConn _ _ _ _ ht3) ?_ ?_ ?_
+  have hr3 : RInv (((k.tbl.insert v6 tcp).1.insertBinding ⟨v6, tcp, l.ip, l.port⟩ n).modify n f) := by
+    refine rinv_modify_keep _ n f hfd ?_ hl ?_
+    · intro s _
+      obtain ⟨tc, htc, _⟩ := ht s
+      rw [htc]; rfl
+    · exact rinv_congr (t := (k.tbl.insert v6 tcp).1) rfl rfl
+        (rinv_insertWith k.tbl (fun fd => { fd := fd, v6 := v6, tcp := tcp }) (fun _ => rfl) h.rinv)
+  refine live_step h h.fix (kinv_insertConn _ _ _ _ ht3) ?_ ?_ ?_ ?_
   · refine cinv_insertConn _ l r n (Nat.lt_succ_self _) ?_ hc3
     intro s' hs' hfd'
     rcases hsocks3 s' hs' with rfl | ⟨_, hne⟩
     · unfold boundEp; rw [hb]
     · exact absurd hfd' hne
+  · exact rinv_congr (t := ((k.tbl.insert v6 tcp).1.insertBinding ⟨v6, tcp, l.ip, l.port⟩ n).modify n f) rfl rfl hr3
   · exact extends_trans hext (extends_refl_of_eq o rfl rfl)
   · intro s' hs'
     rcases hsocks3 s' hs' with rfl | ⟨hold, _⟩
